@@ -14,6 +14,7 @@ import math
 from fractions import Fraction
 
 from ..core import frac
+from .. import c11_fdr as _fdrx   # round 5: FDRThres as written (op fdr_cdf)
 
 LEVEL = "proof"
 RULE = ("component ops: one call of HaarConv / FindLocalPeaks / FDRThres / UnifyLevels / SegmentByPeaks / haarSeg per "
@@ -583,9 +584,9 @@ def gen_oracle(rng, k):
 
 def gen_cases(rng, tier):
     sizes = {
-        "quick": dict(fl=300, conv=500, peaks=600, fdr=400, unify=1200, segs=400, hs=300, oracle=450, cw=160, hsw=120, idx=60),
-        "thorough": dict(fl=3000, conv=4000, peaks=5000, fdr=3000, unify=6000, segs=3000, hs=2500, oracle=4000, cw=1200, hsw=900, idx=400),
-        "search": dict(fl=100, conv=300, peaks=300, fdr=200, unify=300, segs=200, hs=300, oracle=300, cw=150, hsw=100, idx=40),
+        "quick": dict(fl=300, conv=500, peaks=600, fdr=400, unify=1200, segs=400, hs=300, oracle=450, cw=160, hsw=120, idx=60, fz=300),
+        "thorough": dict(fl=3000, conv=4000, peaks=5000, fdr=3000, unify=6000, segs=3000, hs=2500, oracle=4000, cw=1200, hsw=900, idx=400, fz=3000),
+        "search": dict(fl=100, conv=300, peaks=300, fdr=200, unify=300, segs=200, hs=300, oracle=300, cw=150, hsw=100, idx=40, fz=150),
     }[tier]
     import os as _os
     if _os.environ.get("VERIF_C11_ORACLE"):   # development switch (mutation self-tests on a loaded machine): fewer oracle profiles
@@ -596,6 +597,7 @@ def gen_cases(rng, tier):
     import random as _random
     xr = _random.Random(rng.getrandbits(64))
     ext = gen_conv_w_step(xr, sizes["cw"]) + gen_haarseg_w(xr, sizes["hsw"]) + gen_idx(xr, sizes["idx"])
+    ext += _fdrx.gen_fdr_cdf(_random.Random(xr.getrandbits(64)), sizes["fz"])   # after the older extension ops: their draws stay as they were
     cases += gen_fl64(rng, sizes["fl"])
     cases += gen_conv(rng, sizes["conv"])
     cases += gen_peaks(rng, sizes["peaks"])
@@ -610,7 +612,7 @@ def gen_cases(rng, tier):
 
 
 def corpus():
-    out = []
+    out = list(_fdrx.corpus())
     # boundary of the ideal-step theorem: b = 32 = n - b, every level one peak
     for lo, hi in ((0.0, -1.0), (0.585, 0.0), (0.0, 1.0), (0.25, 0.125)):
         I = [lo] * 32 + [hi] * 32
@@ -872,6 +874,8 @@ def run_impl(case):
     import numpy as np
     from cnvlib.segmentation import haar
     op, i = case["op"], case["in"]
+    if op == "fdr_cdf":
+        return _fdrx.run_impl(case)
     if op == "fl64":
         return frac(float(Fraction(i["x"])))
     if op == "haar_conv":
@@ -1093,6 +1097,8 @@ def _oracle_units(i, impl):
 def to_line(case, impl):
     op, i = case["op"], case["in"]
     err = isinstance(impl, dict) and "__error__" in impl
+    if op == "fdr_cdf":
+        return _fdrx.to_line(case, impl)
     if op == "fl64":
         return {"op": op, "in": i, "impl": None}
     if op == "haar_conv":
@@ -1184,6 +1190,9 @@ def judge(case, impl, resp):
     spec = list(resp.get("spec") or [])
     out = resp.get("out")
     dis = []
+    if op == "fdr_cdf":
+        _fdrx.judge(case, impl, resp, spec, dis)
+        return spec, dis, None
     if op == "fl64":
         if Fraction(impl) != Fraction(out):
             dis.append(f"fl64 model {out} python {impl}")
@@ -1287,6 +1296,8 @@ def nontrivial(case, impl, resp):
     if isinstance(impl, dict) and "__error__" in impl:
         return False
     op, i = case["op"], case["in"]
+    if op == "fdr_cdf":
+        return _fdrx.nontrivial(case, impl, resp)
     if op == "haar_conv":
         return len(i["sig"]) >= i["h"] and len(set(i["sig"])) > 1
     if op == "find_peaks":
